@@ -350,7 +350,7 @@ def _space_of(v: list[int], names: list[str]) -> dict:
     return {names[i]: x for i, x in enumerate(v) if x != 2}
 
 
-def run_op(sd: SuccessionDiagram, op: dict, timeout_s: float = 20.0) -> tuple[SuccessionDiagram, dict]:
+def run_op(sd: SuccessionDiagram, op: dict, timeout_s: float = 45.0) -> tuple[SuccessionDiagram, dict]:
     """execute one public call; returns (possibly new sd object, event)"""
     names = var_names(sd)
     ev = dict(DEFAULT_EVENT)
@@ -610,7 +610,7 @@ def tt_in_code_order(tt: list[list[int]], names: list[str], code_names: list[str
     return out
 
 
-def record_trace(tid: str, tt: list[list[int]], ops, cfg: dict | None = None, timeout_s: float = 20.0,
+def record_trace(tid: str, tt: list[list[int]], ops, cfg: dict | None = None, timeout_s: float = 45.0,
                  names: list[str] | None = None, text: str | None = None, fmt: str = "bnet", api: bool = False) -> dict:
     """ops: list of op dicts, or a callable (sd, step) -> op dict | None"""
     cfg = cfg or default_cfg()
